@@ -31,6 +31,10 @@ RULE = ("cells: (key, scheme, hash, salt class) signature cells - honest "
         "live handshake per (signer, key type, version, fault kind, call "
         "index) with the signer's private operation corrupted, every "
         "ServerKeyExchange/CertificateVerify that left the endpoint is "
+        "Messages include ones whose digests begin or end with zero "
+        "bytes; DSA is cross-checked with the harness's own signer and "
+        "verifier; ECDH also runs through the handshake-level helper "
+        "classes for every pair of point-format lists.   "
         "verified independently.  distinct_nontrivial = distinct "
         "(key type, scheme, mutation class) + (group, bad-share class) + "
         "fault sites actually hit + OpenSSL-agreement cells.")
